@@ -736,6 +736,9 @@ func usability(e *runEnv, t *tracker, v *verdicts, where string) {
 			v.add("C03", "usability-not-durable", "%s", f.Msg)
 		}
 	}
+	// the directory and the files the script's truncations, rotations and appends left behind
+	// are held to the same format/identity rules as the first recovered image
+	checkDir(e.fs, v, where+" after usability+power loss")
 }
 
 var errStop = errors.New("stop")
